@@ -328,6 +328,8 @@ def run_workload(tape, *, faults=True, fmt_args=False, oversize=True, cancels=Tr
                 r.payload = tape.bytes("wl/payload", min(r.size, 6)) \
                     + bytes(max(0, r.size - 6))
                 r.data = r.payload
+                if r.size and tape.chance("wl/payload-in-a-bytearray", 15):
+                    r.data = bytearray(r.payload)
         r.fits = 16 + 12 + r.size <= MAXSIZE
         # unique identity (cmd, idx, addr, len) on the wire
         for _ in range(1000):
@@ -376,6 +378,16 @@ def run_workload(tape, *, faults=True, fmt_args=False, oversize=True, cancels=Tr
     client_tasks = []
     stalled = []
 
+    def reuse_buffer(buf):
+        """the application handed over a bytearray and reuses it as soon as the request is
+        made: what goes onto the wire is what it held when roundtrip() was called"""
+        if tape.chance("wl/buffer-shortened", 25):
+            del buf[len(buf) // 2:]
+        else:
+            for i in range(len(buf)):
+                buf[i] ^= 0x5a
+        world.count("wl/payload-buffer-reused-after-the-request-was-made")
+
     async def do_request(r):
         submit_counter[0] += 1
         r.submit_seq = submit_counter[0]
@@ -385,6 +397,9 @@ def run_workload(tape, *, faults=True, fmt_args=False, oversize=True, cancels=Tr
         if r.data is not None:
             kwargs["data"] = r.data
         coro = ec.roundtrip(cmd, r.pos, r.off, *r.args, **kwargs)
+        if isinstance(r.data, bytearray):
+            # (runs once this task yields, i.e. after roundtrip() has queued the request)
+            asyncio.get_event_loop().call_soon(reuse_buffer, r.data)
         try:
             if r.short_timeout is not None:
                 try:
